@@ -712,6 +712,9 @@ func (a *Act) callByContract(st *State, callee *ssa.Function, fc *FuncContract, 
 		if mentionsTrace(cl.Expr) {
 			continue // so are postconditions over the callee's own event trace
 		}
+		if hasExactTag(cl.Tags, "trusted") {
+			u.Trusted["trusted clause of "+strings.TrimPrefix(key, ModulePath+"/")+": "+cl.Src] = true
+		}
 		st.assume(a.evalClause(qenv, cl))
 	}
 	if u.smokeOn && !a.spec {
@@ -924,11 +927,17 @@ func (e *Engine) VerifyFunc(fn *ssa.Function, fc *FuncContract, smoke bool) (res
 		if cl.Kind != "ensures" {
 			continue
 		}
-		t := a.evalClause(qenv, cl)
 		detail := ""
 		if cl.Label != "" {
 			detail = "@" + cl.Label
 		}
+		if hasExactTag(cl.Tags, "trusted") {
+			// a postcondition marked [trusted] is assumed at call sites but not proved here (the rest of the
+			// contract is): it is reported as an assumption of every check that uses the function
+			u.Trusted["trusted clause of "+short+" "+detail+": "+cl.Src] = true
+			continue
+		}
+		t := a.evalClause(qenv, cl)
 		u.Oblige("post", detail, e.Pos(fn.Pos()), "postcondition: "+cl.Src, out.guard, t, cl.Tags)
 	}
 	// frame
@@ -1231,4 +1240,13 @@ func btoi(b bool) int {
 		return 1
 	}
 	return 0
+}
+
+func hasExactTag(tags []string, t string) bool {
+	for _, x := range tags {
+		if x == t {
+			return true
+		}
+	}
+	return false
 }
